@@ -194,6 +194,16 @@ func (c *Core) forward(bp BundleDescriptor) {
 	bp.RemoveConstraint(DispatchPending)
 	_ = bp.Sync()
 
+	// A bundle loaded from the store for a retry still carries those unknown blocks which were flagged for removal
+	// and were only removed from the in-memory bundle at reception.
+	for i := len(bp.MustBundle().CanonicalBlocks) - 1; i >= 0; i-- {
+		cb := &bp.MustBundle().CanonicalBlocks[i]
+		if !bpv7.GetExtensionBlockManager().IsKnown(cb.TypeCode()) && cb.BlockControlFlags.Has(bpv7.RemoveBlock) {
+			bp.MustBundle().CanonicalBlocks = append(
+				bp.MustBundle().CanonicalBlocks[:i], bp.MustBundle().CanonicalBlocks[i+1:]...)
+		}
+	}
+
 	if hcBlock, err := bp.MustBundle().ExtensionBlock(bpv7.ExtBlockTypeHopCountBlock); err == nil {
 		hc := hcBlock.Value.(*bpv7.HopCountBlock)
 		exceeded := hc.Increment()
